@@ -8,6 +8,10 @@ MC = 'model_checking'
 EX = 'exploration'
 # id -> (category, technique, text, note, design_ref, engine)
 claimed = {
+ 'C09': (MC, 'stateless deviation-bounded exhaustive exploration of the real command processor / dispatchers / CU resource pool under an explorer-driven environment',
+   'Real cp.CommandProcessor with its real dispatchers (Builder configuration: 8 round-robin; through the verif hook also 1-2 dispatchers with round-robin, greedy and partition) and real CU resource pool under the real akita SerialEngine. The environment plays the driver and 1-3 compute units with finite resources (SIMDs, wavefront slots, SGPR, VGPR, LDS), answering each MapWGReq individually or batched like the emulation CU. 94 scenarios over 8 kernel shapes (fits-twice, one-at-a-time, zero demand, whole CU, dynamic LDS, filtered, non-granular demand, 1-WG) incl. 2-3 overlapping launches. Every vector of environment answers (completion order/delay, stalls of the CU-facing and driver-facing wires, launch delays) with <= 2 (quick) / <= 3 (thorough) non-default answers is executed; an independent occupancy model checks every map request (exactly once, inside the grid/filter, slots/SGPR/VGPR/LDS within capacity and disjoint from resident work-groups), one LaunchKernelRsp after the last completion, and a whole-CU probe kernel at the end makes any resource leak visible as non-completion at quiescence.',
+   'Trusted: akita SerialEngine/Port; the occupancy model (granularity 16 SGPR / 4 VGPR / 256 B LDS as in the dispatcher). 1-D kernels with work-group sizes that are multiples of 64. Two genuine defects found here were repaired by fix: commits (dynamic LDS accounting; batched completion across dispatchers).',
+   'DESIGN.md §4 C09', 'E1+E4'),
  'C15': (MC, 'stateless deviation-bounded exhaustive exploration of the real component under an explorer-driven environment',
    'Real rob.ReorderBuffer under the real akita SerialEngine, closed by an explorer-owned environment (requester, memory, controller). '
    'Every vector of environment answers (per-request injection delay, per-message wire stall, memory response delay and response order, flush cycle, restart delay) with <= 3 (quick) / <= 4 (thorough) non-default answers is executed on a fresh instance; a port-level monitor checks order, exactly-once, payload, forward fidelity, capacity and flush discipline in every execution.',
